@@ -1373,6 +1373,8 @@ def compile_pattern(compiler, pattern):
         )
     elif isinstance(value, Expression) and value[0] == Symbol("."):
         root, syms = value
+        if len(syms) < 2:
+            raise compiler._syntax_error(value, "a value pattern needs a dotted name")
         dotform = mkexpr(root, *syms).replace(value)
         return asty.MatchValue(
             value,
